@@ -2,7 +2,8 @@
 import common as C
 import gen as G
 
-THEOREMS = []
+THEOREMS = ['sort_result', 'sort_permutation', 'sort_sorted', 'sort_stable', 'nan_first_both_directions',
+            'cmp_strict_weak_order']
 RULE = ('value-first random layouts (numeric incl. NaN/inf floats, bool, strings; options at leaf and list level) x '
         '(sort | argsort) x axis x ascending x stable; argsort is run with stable=True (an unstable argsort is checked '
         'only through sort). non-trivial = some list along the axis has >= 2 elements; distinct by case text')
